@@ -26,6 +26,7 @@ def run(ck):
         "(C09 + B6).")
     ck.trusted = ["rustc front end and MIR construction", "extractor decoding", "std::cell::OnceCell::get_or_init initialises at most once", "C09 (per-piece attack sets)"]
     ck.not_decided = ["that the union of the per-piece attack sets equals the geometric attack set for every placement (C09 + B6, not re-proved)"]
+    _attack_map_fn(ck.prog)
     ck.run_rule(b1_b2_frozen_board)
     ck.run_rule(b3_b4_cache)
     ck.run_rule(b5_is_check)
@@ -110,9 +111,30 @@ def b1_b2_frozen_board(ck):
     ck.req(len(cl) == 1 and cl[0]["derived"], "B1.clone", "Board", "", "Clone for Board is not derived")
 
 
+def _attack_map_fn(prog):
+    """The method of Board that fills the attack cache: by name, or - after a rename - the one non-closure method of Board that calls
+    get_or_init (it is then kept out of the helper inliner: the rules address it as a function)."""
+    name = BOARD + "::attack_map"
+    if name in prog.bodies:
+        return name
+    cached = getattr(prog, "_c10_attack_map_fn", None)
+    if cached:
+        return cached
+    cands = [n for n, b in prog.bodies.items() if n.startswith(BOARD + "::") and "{closure" not in n and
+             any(callee_name(t).split("::")[-1] == "get_or_init" for bb, t in live_calls(prog.raw_body(n)))]
+    if len(cands) == 1:
+        prog._c10_attack_map_fn = cands[0]
+        prog.no_inline = set(getattr(prog, "no_inline", ())) | {cands[0]}
+        prog._inlined = {}
+        prog.inlined_helpers = {}
+        return cands[0]
+    return name
+
+
 def b3_b4_cache(ck):
     prog = ck.prog
-    am = ck.body(BOARD + "::attack_map", "B3")
+    AM = _attack_map_fn(prog)
+    am = ck.body(AM, "B3")
     tb = TermBuilder(prog, am)
     goi = [t for bb, t in live_calls(am) if callee_name(t).endswith("OnceCell::<T>::get_or_init")]
     ck.req(len(goi) == 1, "B3.get_or_init", "attack_map", am.where(), "expected exactly one get_or_init, found %d" % len(goi))
@@ -179,7 +201,7 @@ def b3_b4_cache(ck):
                 for pl in places:
                     if touches_board_field(pl, {"colored_attack_map"}):
                         n += 1
-                        ck.req(fn_of(prog, b).name in (BOARD + "::attack_map", BOARD + "::new"), "B4.cell_access", b.name, b.where(s["line"]),
+                        ck.req(fn_of(prog, b).name in (_attack_map_fn(prog), BOARD + "::new"), "B4.cell_access", b.name, b.where(s["line"]),
                                "the attack cache is accessed outside Board::new / Board::attack_map: cells can be filled with data of another placement")
         for bb, t in live_calls(b):
             if "cell::once::OnceCell" in callee_name(t) and callee_name(t).split("::")[-1] in ("set", "take", "get_mut", "get_mut_or_init", "into_inner", "try_insert") \
@@ -190,7 +212,7 @@ def b3_b4_cache(ck):
     for nm, fld in (("colored_attacks", "all"), ("colored_pawn_attacks", "pawn")):
         b = ck.body(BOARD + "::" + nm, "B4")
         rt = return_term(prog, b)
-        ck.req(rt is not None and rt[0] == "field" and rt[2] == fld and is_call(rt[1], BOARD + "::attack_map") and rt[1][2] == (("param", 1), ("param", 2)), "B4.accessor", nm, b.where(),
+        ck.req(rt is not None and rt[0] == "field" and rt[2] == fld and is_call(rt[1], _attack_map_fn(prog)) and rt[1][2] == (("param", 1), ("param", 2)), "B4.accessor", nm, b.where(),
                "%s is not self.attack_map(color).%s" % (nm, fld))
 
 
